@@ -94,7 +94,7 @@ func UpstreamEVM(fork string, st *state.StateDB, tracer ethvm.EVMLogger, extra [
 		Transfer:    core.Transfer,
 		GetHash:     func(n uint64) common.Hash { return common.BigToHash(new(big.Int).SetUint64(n + 0x1000)) },
 		Coinbase:    impl.Coinbase,
-		BlockNumber: big.NewInt(0),
+		BlockNumber: big.NewInt(impl.BlockNumber),
 		Time:        0,
 		Difficulty:  big.NewInt(0x20000),
 		GasLimit:    30_000_000,
